@@ -32,7 +32,7 @@ REFS = {'PV': {'bus': 'ACTopology'}, 'Slack': {'bus': 'ACTopology'}, 'PQ': {'bus
         'IEEEST': {'avr': 'Exciter'}, 'ST2CUT': {'avr': 'Exciter'}, 'BusFreq': {'bus': 'ACTopology'},
         'BusROCOF': {'bus': 'ACTopology'}, 'Bus': {}}
 
-idx_kinds = st.sampled_from(['auto', 'auto', 'int', 'str', 'collide', 'pattern', 'pattern_next'])
+idx_kinds = st.sampled_from(['auto', 'auto', 'int', 'str', 'collide', 'pattern', 'pattern_next', 'zero', 'zero'])
 
 
 class Machine(RuleBasedStateMachine):
@@ -68,6 +68,11 @@ class Machine(RuleBasedStateMachine):
             return self.counter
         if kind == 'str':
             return 'dev%d' % self.counter
+        if kind == 'zero':          # zero-based numbering (stock cases such as pjm5bus use it): 0 is a valid idx
+            if 0 not in existing:
+                self.features.add('idx_zero')
+                return 0
+            return self.counter
         if kind == 'collide':
             if existing:
                 self.features.add('collision')
